@@ -1,4 +1,5 @@
 """C09 — rollback restores exactly one group's state and destroys nothing else (schema + SQL + MIR clauses)."""
+import re
 from ir import last_seg
 import analysis as A
 import sqlmod
@@ -272,6 +273,36 @@ def clause_memory(prog, rep):
                   "filter compares the entry's key with the captured group id",
                   "a retain/filter closure in snapshot/restore does not compare against the group id: other groups' entries are affected", g.loc())
     rep.floor("memory-scope", "group filters in snapshot/restore", nclos, 6)
+    # key representation: the OpenMLS maps are keyed by the MlsCodec-serialised group id (that is what the writers in mls_storage use),
+    # the MDK caches by GroupId itself — a filter comparing a serialised key with the raw id (or vice versa) silently matches nothing
+    nrep = 0
+    for par in rb_ext + cr_ext:
+        for bb, st in par.stmts():
+            if st.get("k") != "closure" or st.get("closure") not in prog.fns:
+                continue
+            g = prog.fns[st["closure"]]
+            if g.ret != "bool" or len(g.locals) < 3:
+                continue
+            keyty = g.locals[2]
+            caps = [o["p"][0] for o in st.get("o", []) if "p" in o]
+            if not caps:
+                continue
+            from_codec = []
+            for l in caps:
+                _, calls, _ = par.depends_on(l)
+                from_codec.append(any(c.name == "serialize" and last_seg(c.self_adt) == "MlsCodec" for c in calls))
+            serialised_key = bool(re.match(r"^&?\(?&?\(alloc::vec::Vec<u8>", keyty))
+            nrep += 1
+            if serialised_key:
+                rep.check(all(from_codec), "memory-scope", "filter-key-representation/%s#%s" % (last_seg(g.parent), g.path.rsplit("#", 1)[-1].rstrip("}")),
+                          "the OpenMLS map (keys: MlsCodec-serialised group id) is filtered with the serialised id",
+                          "an OpenMLS map keyed by the MlsCodec-serialised group id is filtered against a value that is not the serialised id "
+                          "(captured: %s): nothing matches, so that part of the group is neither snapshotted nor restored" % [par.locals[l] for l in caps], g.loc())
+            else:
+                rep.check(not any(from_codec), "memory-scope", "filter-key-representation/%s#%s" % (last_seg(g.parent), g.path.rsplit("#", 1)[-1].rstrip("}")),
+                          "the MDK cache (keys: GroupId) is filtered with the group id itself",
+                          "an MDK cache keyed by GroupId is filtered against the serialised id: nothing matches", g.loc())
+    rep.floor("memory-scope", "filter closures with a captured comparand", nrep, 6)
     # taking / listing / releasing / pruning never take the write lock on the live state
     for n in ("create_group_snapshot", "release_group_snapshot", "list_group_snapshots", "prune_expired_snapshots"):
         bad = []
